@@ -401,24 +401,6 @@ pure func archCPU(s string) string { dash1(s) < 0 ? s : (dash2(s) < 0 ? s[dash1(
 // rendering an architecture is the inverse of parsing it (C05): for every triple with non-empty parts whose ABI and OS
 // contain no dash - what parsing an architecture name gives - the rendered name parses back to the same triple, so a
 // wildcard is neither widened nor narrowed
-lemma idx_least(s string, c int, from int, k int)
-  requires 0 <= from && from <= k && k < len(s) && (indexByte(s, c, from) == -1 || k < indexByte(s, c, from))
-  ensures s[k] != c
-  decreases k - from
-  { if from < k { if s[from] != c { idx_least(s, c, from + 1, k) } } }
-
-lemma idx_is(s string, c int, from int, k int)
-  requires 0 <= from && from <= k && k < len(s) && s[k] == c && (forall j int :: from <= j && j < k ==> s[j] != c)
-  ensures indexByte(s, c, from) == k
-  decreases k - from
-  { if from < k { idx_is(s, c, from + 1, k) } }
-
-lemma idx_none(s string, c int, from int)
-  requires 0 <= from && (forall j int :: from <= j && j < len(s) ==> s[j] != c)
-  ensures indexByte(s, c, from) == -1
-  decreases len(s) - from
-  { if from < len(s) { idx_none(s, c, from + 1) } }
-
 // the two dashed forms, once and for all: where the dashes are and what lies between them
 lemma render2(o string, c string)
   requires dash1(o) < 0 && dash1(c) < 0
